@@ -20,6 +20,7 @@ def run(ctx):
     R.rule_literal_escapes(ctx)
     R.rule_exists_parens(ctx)
     R.rule_ctor_gap(ctx)
+    R.rule_directive_bounds(ctx)
     ctx.assume("child-position requirements of the printer (term_through(child, P)) are NOT cross-checked against the grammar's "
                "child nonterminals; punning and telescope merging are NOT decided; layout guards other than render failure are not "
                "analysed; some parseable sources still have no admissible layout (F14): they are reported as an error, the file is "
